@@ -158,6 +158,36 @@ def jsonable_action(a, ci, depth=0):
     return {"repr": repr(a)[:80]}
 
 
+def violation_attrs(v):
+    """attributes a `_fix_violation` reads directly from the violation or its region:
+    `_tv` = oTokens.sTokenValue (`get_token_value()`, set by get_tokens_bounded_by),
+    `_ti` = oTokens.token_index (set by get_line_which_includes_tokens),
+    `_iw` = violation.insert_whitespace (set by move_token.create_move_left_violation),
+    `_a`  = the action itself when it is a bare int (move_token_right_to_next_non_whitespace_token)"""
+    a = {}
+    act = v.get_action()
+    if isinstance(act, int) and not isinstance(act, bool):
+        a["_a"] = act
+    ot = v.oTokens
+    tv = getattr(ot, "sTokenValue", None)
+    if isinstance(tv, int) and not isinstance(tv, bool):
+        a["_tv"] = tv
+    ti = getattr(ot, "token_index", None)
+    if isinstance(ti, int) and not isinstance(ti, bool):
+        a["_ti"] = ti
+    if hasattr(v, "insert_whitespace"):
+        a["_iw"] = bool(v.insert_whitespace)
+    return a
+
+
+def harvest_action(v, ci):
+    """action dict + violation attributes (used by the synthetic line-structure correspondence)"""
+    a = jsonable_action(v.get_action(), ci)
+    a = dict(a) if isinstance(a, dict) else {}
+    a.update(violation_attrs(v))
+    return a
+
+
 STD_ATTRS = {"name", "identifier", "unique_id", "solution", "violations", "had_violations", "phase", "subphase", "disable", "fixable", "severity", "user_error_message", "debug", "dFix", "configuration", "deprecated", "proposed", "groups", "options", "configuration_documentation_link", "prerequisites", "remap", "fix", "analyze", "_get_tokens_of_interest"}
 
 
@@ -216,6 +246,8 @@ def instrumented_fix(oFile, rl, ci, fix_phase=7, skip_phase=None, fix_only=None,
                         "new": snap(ot.get_tokens(), ci, ser),
                         "action": repr(v.get_action())[:200],
                         "action_data": jsonable_action(v.get_action(), ci) if harvest else None,
+                        # what some base classes read from the violation / its region instead of the action
+                        "viol_attrs": violation_attrs(v) if harvest else None,
                         # indent level of every OLD token of interest (token state outside the wire form; the
                         # indent family's `_fix_violation` reads it): st.before holds the token objects
                         "old_indents": ([getattr(o, "indent", None) for o, _ in st.before[ot.iStartIndex : ot.iEndIndex]] if harvest and st.before is not None and isinstance(ot.iStartIndex, int) and isinstance(ot.iEndIndex, int) else None),
